@@ -17,6 +17,12 @@ for d in sorted(os.listdir(root)):
         txt = open(np_).read()
         notes = " ".join(txt.split())[:160]
     c = m.get("checks", {}).get(m["property"], {})
+    if not c.get("caught"):
+        # reported by the check of a neighbouring property (run with --check): say which
+        for other, oc in m.get("checks", {}).items():
+            if oc.get("caught"):
+                c = dict(oc, violations=[f"violation sig=[by {other}] " + (oc.get("violations") or [""])[0].replace("violation sig=", "")])
+                break
     stat = " ".join(s.strip() for s in m.get("diffstat", [])[:-1])[:70]
     sig = (c.get("violations") or [""])[0]
     sig = sig.split(" runs=")[0].replace("violation sig=", "")
@@ -35,6 +41,6 @@ with open(os.path.join(root, "README.md"), "w") as f:
     for d, p, stat, conf, dc, dw, su, caught, sig, wall in rows:
         f.write(f"| {d} | {stat} | {'yes' if conf else 'NO'} ({dc}/{dw}, {su}) | {'**yes**' if caught else 'no'} | `{sig[:90]}` | {wall} |\n")
     n = len(rows)
-    f.write(f"\n{sum(1 for r in rows if r[7])} of {n} changes are reported by the check of their property at the quick budget; "
+    f.write(f"\n{sum(1 for r in rows if r[7])} of {n} changes are reported at the quick budget by the check of their property (or, where the first signature says so, of a neighbouring property); "
             f"{sum(1 for r in rows if r[3])} of {n} were confirmed as stated by their author.\n")
 print(open(os.path.join(root, "README.md")).read())
